@@ -45,6 +45,8 @@ ARGS = [
     {"k": "obj", "b": "raise"}, {"k": "obj", "b": "raise_base"}, {"k": "obj", "b": "reenter"},
     {"k": "obj", "b": "steps"}, {"k": "obj", "b": "reenter"}, {"k": "obj", "b": "raise"},
 ]
+ALIAS_PAIRS = [("a-b", "a_b"), ("\ufb01x", "fix"), ("\u2022", "XbulletX"), ("foo-bar", "foo_bar"), ("\uff26oo", "Foo"), ("a", "a"),
+               ("x!", "xXexclamation_markX"), ("", ""), ("\u00b5", "\u03bc"), ("1", "1")]
 CHARS = "abcxyzXYZ019-_!?*+<>=/ \u00e9\ufb01\u00b5\uff21\u2171\u2603\u0301\U0001d525\u01c5\u00aa\u2460\u212b\u1e9b\u0323"
 
 
@@ -128,6 +130,14 @@ def generate(rng, tier):
             else:
                 calls.append({"k": "str", "v": "".join(rng.choice(CHARS) for _ in range(rng.randrange(1, 5)))})
         threads.append(calls)
+    if rng.random() < 0.2:
+        # two calls (same or different threads) whose labels are distinct strings with the same mangling, or equal
+        a, b = rng.choice(ALIAS_PAIRS)
+        slots = [(t, c) for t, calls in enumerate(threads) for c in range(len(calls))]
+        if len(slots) >= 2:
+            (t1, c1), (t2, c2) = rng.sample(slots, 2)
+            threads[t1][c1] = {"k": "str", "v": a}
+            threads[t2][c2] = {"k": "str", "v": b}
     pol = rng.choice(["random", "random", "pct", "rr"])
     if pol == "random":
         sched = {"policy": "random", "p": rng.choice([0.02, 0.05, 0.1, 0.2, 0.35, 0.5])}
@@ -264,6 +274,9 @@ def execute(desc):
     elif outcome2:
         raise RuntimeError("harness: closing calls aborted: " + str(outcome2))
     oks = [(t, c, r) for (t, c, k, r) in results if k == "ok"] + [("main", i, r) for i, r in enumerate(follow)]
+    if outcome == "deadlock" or outcome2 == "deadlock":
+        oks = []   # after a deadlock the threads are released without scheduling: what they return means nothing
+        results = [r for r in results if False]
     names = [str(r) for (_, _, r) in oks]
     seen = {}
     for (t, c, r), nm in zip(oks, names):
